@@ -639,6 +639,18 @@ func c17Start(w *c17World, s *c17State, k int) []string {
 	if tc.Name != "saml_"+relay {
 		out = append(out, fmt.Sprintf("start/relaystate-does-not-name-cookie|RelayState %q, cookie %q", relay, tc.Name))
 	}
+	// a flow whose index is empty travels without a RelayState and can only end at the default URL, not at its own; and two pending
+	// flows under one index (unless the application's own function chose it) overwrite each other's cookie
+	if relay == "" {
+		out = append(out, "start/empty-tracking-index|the flow was started with an empty index: no RelayState names its tracking cookie (relay-state function setting: "+w.cfg.rsf+")")
+	}
+	if w.cfg.rsf != "fixed" {
+		for j := range s.flows {
+			if j != k && s.flows[j].status > 0 && s.flows[j].index == relay {
+				out = append(out, fmt.Sprintf("start/index-shared-with-another-pending-flow|flows %d and %d both run under index %q", j, k, relay))
+			}
+		}
+	}
 	// (Path, Max-Age, HttpOnly and Secure of the *tracking* cookie are implementation detail; the statement constrains behaviour -
 	// refusal after the tracking lifetime - and the attributes of the session cookie only.)
 	f.cookieVal = tc.Value
